@@ -105,7 +105,7 @@ func poolOracle(s *poolScn, res poolChildResult) []string {
 	// OnTracks, and any HTTP failure, is surfaced as that error"
 	inRange := s.fidx < s.nreq()
 	allowed := map[string]bool{}
-	closeBefore := s.closeAt == "start" || s.closeAt == "req" || s.closeAt == "ontracks" || s.closeAt == "pacing" || s.fault == "stall"
+	closeBefore := s.closeAt == "start" || s.closeAt == "req" || s.closeAt == "held" || s.closeAt == "ontracks" || s.closeAt == "pacing" || s.fault == "stall"
 	if closeBefore {
 		allowed["terminated"] = true
 	}
@@ -117,14 +117,31 @@ func poolOracle(s *poolScn, res poolChildResult) []string {
 	case s.fault == "transport" && inRange:
 		allowed["io"] = true
 	case s.fault == "stall" && inRange:
+	case s.format == "ll":
+		// a Low-Latency stream has no end-of-stream path in the client: when the origin stops advertising a
+		// preload hint the stream downloader fails with "preload hint disappeared" — the first fatal error
+		allowed["other"] = true
 	default:
 		allowed["eos"] = true
 	}
 	if !allowed[result] {
 		fail("Wait() yielded %q (%s), which is neither the injected failure, nor end of stream, nor a termination after Close", result, res.msg)
 	}
-	if result == "other" && !strings.Contains(res.msg, "bad status code") {
-		fail("HTTP failure surfaced as a different error: %s", res.msg)
+	if result == "other" {
+		hintGone := s.format == "ll" && res.msg == "preload hint disappeared"
+		switch {
+		case s.fault == "status" && inRange && s.format == "ll" && s.layout == "rend":
+			// two independent streams: the other one may reach its end first
+			if !strings.Contains(res.msg, "bad status code") && !hintGone {
+				fail("HTTP failure surfaced as a different error: %s", res.msg)
+			}
+		case s.fault == "status" && inRange:
+			if !strings.Contains(res.msg, "bad status code") {
+				fail("HTTP failure surfaced as a different error: %s", res.msg)
+			}
+		case !hintGone:
+			fail("unexpected fatal error: %s", res.msg)
+		}
 	}
 	// "Once that error has been yielded, no goroutine started by the client is still running … and no user
 	// callback is invoked afterwards"
@@ -185,6 +202,45 @@ func (poolSlice) Corpus() [][]string {
 			}
 		}
 	}
+	// Low-Latency (fMP4, preload hints + playlist reloads): specials for both layouts, and for the single stream
+	// every request index (init, each hint, each reload) with every fault kind and both ways of closing
+	for _, l := range []string{"single", "rend"} {
+		s := base
+		s.format, s.layout, s.nseg = "ll", l, 2
+		s.skip = l == "rend"
+		out = append(out, mk(s)) // runs until the origin stops advertising hints
+		c := s
+		c.closeAt, c.nclose = "ontracks", 2
+		out = append(out, mk(c))
+		c = s
+		c.closeAt, c.nclose, c.late = "pacing", 3, true
+		out = append(out, mk(c))
+		c = s
+		c.fault = "ontracks"
+		out = append(out, mk(c))
+		c = s
+		c.closeAt, c.nclose = "eos", 2
+		out = append(out, mk(c))
+		c = s
+		c.closeAt = "start"
+		out = append(out, mk(c))
+		if l != "single" {
+			continue
+		}
+		for i := 0; i <= s.nreq(); i++ {
+			for _, k := range []string{"status", "transport", "stall"} {
+				c = s
+				c.fault, c.fidx, c.skip = k, i, i%2 == 1
+				out = append(out, mk(c))
+			}
+			c = s
+			c.closeAt, c.cidx, c.nclose = "req", i, 1+i%3
+			out = append(out, mk(c))
+			c = s
+			c.closeAt, c.cidx, c.nclose, c.late, c.skip = "held", i, 1+(i+1)%3, i%2 == 0, true
+			out = append(out, mk(c))
+		}
+	}
 	return out
 }
 
@@ -196,7 +252,16 @@ func (poolSlice) Gen(r *rand.Rand, _ int, tier string) ([]string, []string) {
 	if r.Intn(3) == 0 {
 		s.layout = "rend"
 	}
-	idx := func() int { return r.Intn(s.nreq() + 2) }
+	if r.Intn(10) < 3 {
+		s.format, s.skip = "ll", r.Intn(2) == 0
+	}
+	idx := func() int {
+		if s.format == "ll" && s.layout == "rend" {
+			// two independent Low-Latency streams: only indices both streams are certain to be alive at
+			return r.Intn(2*s.nseg + 2)
+		}
+		return r.Intn(s.nreq() + 2)
+	}
 	var tag string
 	switch p := r.Intn(100); {
 	case p < 22:
@@ -206,6 +271,10 @@ func (poolSlice) Gen(r *rand.Rand, _ int, tier string) ([]string, []string) {
 	case p < 44:
 		tag = "close-at-request"
 		s.closeAt, s.cidx = "req", idx()
+		if r.Intn(2) == 0 {
+			tag = "close-while-request-held"
+			s.closeAt = "held"
+		}
 		s.late = r.Intn(4) == 0
 	case p < 52:
 		tag = "close-before-first-response"
@@ -241,6 +310,9 @@ func (poolSlice) Gen(r *rand.Rand, _ int, tier string) ([]string, []string) {
 		s.closeAt = "req"
 		for s.cidx = idx(); s.cidx == s.fidx; s.cidx = idx() {
 		}
+	}
+	if s.format == "ll" {
+		tag = "ll-" + tag
 	}
 	tags := []string{tag, "fmt-" + s.format, "layout-" + s.layout, fmt.Sprintf("closes-%d", s.nclose)}
 	if s.late {
